@@ -1,8 +1,3 @@
 /* linked only in -DVLOG builds (counterexample extraction) */
 #include <stdint.h>
-#ifndef VLOG_MAX
-#define VLOG_MAX 4096
-#endif
-uint64_t vlog[VLOG_MAX];
-unsigned vlog_n;
-uint64_t vin(uint64_t v){ if (vlog_n < VLOG_MAX) vlog[vlog_n++] = v; return v; }
+uint64_t vin(uint64_t v) { return v; }
